@@ -46,7 +46,7 @@ def judge_strict(case):
     pair, t, b = optim.make_pair(case)
     if not pair.is_valid:
         return {"skip": "library-rejects-spelling"}
-    orig = pair.text.rgb
+    orig = optim.true_original(pair, t, pair.bg.rgb)
     result, success = optim.call_make_readable(pair, case)
     rgbs = optim.readback_set(result)
     worst = max(cie.de00(orig, c) for c in rgbs)
